@@ -98,6 +98,43 @@ Proof.
   intros V vtrue truthy T store kc KOK. exact (vload_linked V vtrue truthy T store kc KOK).
 Qed.
 
+(* the premise `linked` only fixes what the identities NAME; it never restricts
+   the FEMData: every d has a naming (and then the theorems above apply) *)
+Definition canon_comp (z : Z) : comp :=
+  match z with
+  | 0%Z => CNodes | 1%Z => CElements | 2%Z => CNodal | 3%Z => CElemental
+  | 4%Z => CConstraints | _ => CSettings
+  end.
+
+Definition canon_snap : snap :=
+  Snap (Some 0%Z) (Some 1%Z) (Some 2%Z) (Some 3%Z) (Some 4%Z) (Some 5%Z).
+
+Theorem C05_linked_exists :
+  forall (V : Type) (vtrue : V) kc (d : fem V),
+    wf_snap canon_snap = true
+    /\ linked vtrue (fun z => comp_dict vtrue kc d (canon_comp z)) kc d canon_snap.
+Proof. intros V vtrue kc d. split; [reflexivity|]. intros c. destruct c; reflexivity. Qed.
+
+(* hence, with no premise about identities: saving ANY well-formed FEMData and
+   reading the directory again gives it back *)
+Theorem C05_save_load_any_value :
+  forall (V : Type) (vtrue : V) (truthy : V -> bool), truthy vtrue = true ->
+  forall kc, key_cfg_ok kc = true ->
+  forall cfg, cfg_ok cfg = true -> order_ok (glob_order cfg) ->
+  forall (d : fem V), wf_fem kc d = true ->
+  exists (store : Z -> dict V) s, linked vtrue store kc d s /\
+    forall src m dr0,
+    exists r, map fst (run cfg src [Save s m; Read false] dr0) = [RNone; r]
+      /\ exists d', vresult truthy store kc r = Some (Ok d')
+           /\ same_fem d' (if m then mesh_of d else d).
+Proof.
+  intros V vtrue truthy T kc KOK cfg OK OO d WF.
+  destruct (C05_linked_exists V vtrue kc d) as [WS L].
+  exists (fun z => comp_dict vtrue kc d (canon_comp z)), canon_snap. split; [exact L|].
+  intros src m dr0.
+  exact (C05_save_load_values V vtrue truthy T _ kc KOK cfg OK OO src d canon_snap m dr0 WF WS L).
+Qed.
+
 (* non-vacuity: a well-formed FEMData with mixed element types whose names
    contain one another, a time series, elemental data on two types, no
    constraints (empty collection: no identity), string-named settings; a store
@@ -209,3 +246,5 @@ Print Assumptions C05_settings_exact.
 Print Assumptions C05_settings_none_string_lost.
 Print Assumptions C05_loaded_is_saved.
 Print Assumptions C05_crash_safe_values.
+Print Assumptions C05_linked_exists.
+Print Assumptions C05_save_load_any_value.
